@@ -156,7 +156,7 @@ pub fn build_case(ch: &mut Ch) -> Case {
         p.groups = (1, 3);
         p.unused_structs = (0, 2);
         let opts = gen_opts(&mut h);
-        let inc = if h.chance(1, 4) { Some("shaders/a b.wgsl".to_string()) } else { None };
+        let inc = if h.chance(3, 8) { Some((*h.pick(&["shaders/a b.wgsl", "./shaders/a b.wgsl", "shaders/../shaders/a b.wgsl", "missing/x.wgsl"])).to_string()) } else { None };
         let sh = gen_shader(ch, &p);
         keys.push(Key { wgsl: render(&sh), include_path: inc, opts });
     }
@@ -165,7 +165,14 @@ pub fn build_case(ch: &mut Ch) -> Case {
 
 fn random_env(seed: u32, slot: u32) -> (Vec<(String, String)>, std::path::PathBuf) {
     let m = crate::chooser::mix(seed as u64, slot as u64);
-    let dirs = ["/", "/tmp", "/verif/work", "/usr", "/verif"];
+    // working directories: in one of them the relative include path of the keys resolves to an
+    // existing file, in the others it does not
+    let with = format!("{VERIF_DIR}/work/c18/cwd_with");
+    let without = format!("{VERIF_DIR}/work/c18/cwd_without");
+    let _ = std::fs::create_dir_all(format!("{with}/shaders"));
+    let _ = std::fs::create_dir_all(&without);
+    let _ = std::fs::write(format!("{with}/shaders/a b.wgsl"), "// exists\n");
+    let dirs = ["/", with.as_str(), "/tmp", without.as_str(), "/usr", with.as_str()];
     let cwd = std::path::PathBuf::from(dirs[(m % dirs.len() as u64) as usize]);
     let langs = ["C", "en_US.UTF-8", "tr_TR.UTF-8", "ja_JP.eucJP", ""];
     let mut env = vec![
